@@ -10,6 +10,7 @@
   consistent" clause of the property.
 -/
 import StorageModel.C18.Mvcc
+import StorageModel.C18.SortFields
 namespace StorageModel.C18
 
 structure Ent where
@@ -88,6 +89,8 @@ inductive Qry where
   | fAny (j : Nat)                -- FindMatchingAnyOf (sorted by the harness: map order)  and  IteratorMatchingAnyOf(…)(tx, true)
   -- round 6: a filter in a spelling (keyword case, white space inside keyword operators) no earlier parse used
   | qSpelled (t : Nat)            -- QueryIds  <fresh spelling of template t>: the answer of the canonical text
+  -- round 9: the sort fields of one parsed query (k sort fields) taken by two callers which each append their own element
+  | sortFieldsTwice (k : Nat)     -- q := Parse(sorted text with k fields); a := append(q.GetSortFields(), X); b := append(q.GetSortFields(), Y)
   deriving DecidableEq, Repr
 
 /-- the shared values slices of the harness (role numbers; deliberately not ascending, with a duplicate, empty, single) -/
@@ -167,6 +170,47 @@ def insertTop (e : Ent) : List Ent → List Ent
   | [] => [e]
   | x :: r => if e.rank > x.rank || (e.rank == x.rank && e.id < x.id) then e :: x :: r else x :: insertTop e r
 
+/-- round 9: the shared texts 14..21 are sorted on 1..8 fields (field codes: 0 rank int64, 1 even bool, 2 ext string or nil,
+    3 name string; flag = ascending); a symbol comparator orders nil first, false before true, strings bytewise, and the
+    scanner adds `id` ascending as the last sort field (newRowComparator) -/
+def cmpField (f : Nat) (a b : Ent) : Ordering :=
+  match f with
+  | 0 => compare a.rank b.rank
+  | 1 => compare (if extEven a.id then 1 else 0) (if extEven b.id then 1 else 0)
+  | 2 => compare (match extStr a.id with | none => 0 | some k => k + 1) (match extStr b.id with | none => 0 | some k => k + 1)
+  | _ =>
+    let da := (Nat.toDigits 10 a.name).map Char.toNat
+    let db := (Nat.toDigits 10 b.name).map Char.toNat
+    if da < db then .lt else if da = db then .eq else .gt
+
+def cmpRows (keys : List (Nat × Bool)) (a b : Ent) : Ordering :=
+  match keys with
+  | [] => compare a.id b.id
+  | (f, asc) :: r =>
+    match cmpField f a b with
+    | .eq => cmpRows r a b
+    | o => if asc then o else o.swap
+
+def insertBy (keys : List (Nat × Bool)) (e : Ent) : List Ent → List Ent
+  | [] => [e]
+  | x :: r => if cmpRows keys e x == .lt then e :: x :: r else x :: insertBy keys e r
+
+/-- (sort keys, lower bound on rank, skip, limit) of shared text j (harness/c18_shared.go c18SharedTexts 14..21) -/
+def sharedSort (j : Nat) : List (Nat × Bool) × Nat × Nat × Nat :=
+  match j with
+  | 14 => ([(0, true)], 0, 0, 1000)
+  | 15 => ([(1, false), (0, true)], 0, 0, 1000)
+  | 16 => ([(1, true), (0, false), (3, false)], 1, 1, 20)
+  | 17 => ([(0, true), (1, true), (2, false), (3, true)], 0, 0, 1000)
+  | 18 => ([(1, true), (0, false), (1, false), (2, true), (3, false)], 0, 2, 30)
+  | 19 => ([(0, true), (0, false), (1, true), (2, false), (2, true), (3, true)], 2, 0, 1000)
+  | 20 => ([(2, true), (1, false), (0, true), (0, true), (1, true), (2, false), (3, false)], 0, 0, 7)
+  | _ => ([(1, true), (2, true), (0, false), (1, false), (2, false), (0, true), (3, true), (3, false)], 0, 3, 1000)
+
+def evalSharedSort (j : Nat) (v : Ver) : List Nat :=
+  let (keys, lo, sk, lim) := sharedSort j
+  ((((v.filter (lo ≤ ·.rank)).foldl (fun acc e => insertBy keys e acc) []).drop sk).take lim).map (·.id)
+
 def evalQ (q : Qry) (v : Ver) : List Nat :=
   match q with
   | .qName n => (v.filter (·.name == n)).map (·.id)
@@ -190,7 +234,9 @@ def evalQ (q : Qry) (v : Ver) : List Nat :=
   | .vExt a b => [extStrCode a, extStrCode b]
   | .qShared j =>
     if j == 12 then (((v.foldl (fun acc e => insertTop e acc) []).drop 1).take 3).map (·.id)   -- true sort by rank desc skip 1 limit 3
+    else if 14 ≤ j then evalSharedSort j v
     else (v.filter (sharedPred j)).map (·.id)
+  | .sortFieldsTwice k => SortFields.twoCallers k
   | .qSpelled t =>
     if t == 7 then (v.foldl (fun acc e => insertTop e acc) []).map (·.id)      -- true sort by rank desc limit none
     else (v.filter (spelledPred t)).map (·.id)
